@@ -5,6 +5,7 @@ import Req.Lemmas.C02Bufio
 import Req.Lemmas.C02H1Simple
 import Req.Lemmas.C02Resp
 import Req.Lemmas.C02H2
+import Req.Lemmas.C02Chunked
 /-!
 C02 — response fidelity: property theorems.
 
@@ -112,6 +113,73 @@ theorem read_split_independent_close (body : Bytes) (segs : List Bytes) (hsegs :
     rw [hexp] at this; exact this
   · intro hpos hlen
     exact runReads_terminates close_refines close_progress ks _ hinv hpos (by rw [hexp]; exact hlen)
+
+/-- **read_split_independent, chunked.** The origin wrote the chunks `cs` (each with a
+size line that the reader's own line parser maps to the chunk's length: any hex case, leading
+zeros, extensions, trailing blanks), the last-chunk line, a trailer section and whatever
+follows (`tail = <trailer section> ++ rest`, with `readTrailer` yielding `t` on it — see
+`trailerOK_empty` for the section without fields). For EVERY segmentation `segs` of that wire,
+every way the connection ends afterwards and EVERY sequence `ks` of caller read sizes:
+
+* the bytes handed out are a prefix of the concatenated chunk data;
+* a run that ends with an error ends with `io.EOF`, and then the bytes are EXACTLY the chunk
+  data, `Response.Trailer` got `t`, and exactly `rest` is left on the connection;
+* with positive read sizes and more reads than data bytes the run does end. -/
+theorem read_split_independent_chunked (cap : Nat) (cs : List WChunk) (hcs : ∀ c ∈ cs, c.OK cap)
+    (last : Bytes) (hl : LastOK cap last) (tail rest : Bytes) (t : Option Trailer)
+    (ht : TrailerOK cap tail rest t)
+    (segs : List Bytes) (hsegs : segs.flatten = wireFrom cs last tail) (fin : NetEnd) (ks : List Nat) :
+    let run := (H1Body.new .chunked (Bufio.new cap ⟨segs, fin⟩)).runReads ks
+    (∃ u, dataOf cs = outBytes run.1 ++ u) ∧
+    (∀ e, lastErr run.1 = some e →
+      e = .eof ∧ outBytes run.1 = dataOf cs ∧ run.2.trailer = t ∧ run.2.br.rem = rest) ∧
+    ((∀ k ∈ ks, 0 < k) → (dataOf cs).length < ks.length → ∃ e, lastErr run.1 = some e) := by
+  have hrel : ChunkRel cap last tail (H1Body.new .chunked (Bufio.new cap ⟨segs, fin⟩)) (dataOf cs) := by
+    refine ⟨Chunked.init, rfl, rfl, ?_, rfl, rfl, rfl, Bufio.new_wf _ _, Bufio.new_fits _ _, rfl⟩
+    simp only [H1Body.new, Bufio.new_rem, hsegs]
+    exact CPos.header cs hcs
+  have R := chunked_refines cap last tail rest t hl ht
+  refine ⟨runReadsR_prefix R ks _ _ hrel, ?_, ?_⟩
+  · intro e he
+    have hfin := runReadsR_final R (fun e bd' => e = .eof ∧ bd'.trailer = t ∧ bd'.br.rem = rest)
+      (fun bd E k d e bd' hr h => by
+        obtain ⟨h1, _, h3, h4⟩ := (chunked_read cap last tail rest t hl ht bd E k hr d (some e) bd' h).2 e rfl
+        exact ⟨h1, h3, h4⟩) ks _ _ hrel e he
+    obtain ⟨rfl, h2, h3⟩ := hfin
+    exact ⟨rfl, runReadsR_eof R ks _ _ hrel .eof he rfl, h2, h3⟩
+  · intro hpos hlen
+    exact runReadsR_terminates_bytes R
+      (fun bd E k d bd' hr hk h => by
+        obtain ⟨_, _, _, hp⟩ := (chunked_read cap last tail rest t hl ht bd E k hr d none bd' h).1 rfl
+        exact hp hk) ks _ _ hrel hpos hlen
+
+/-- The same without trailer fields, fully explicit: after the last-chunk line comes CRLF and
+then `rest`. (Buffer size ≥ 2: Go's `bufio` minimum is 16.) -/
+theorem read_split_independent_chunked_no_trailer (cap : Nat) (hcap : 2 ≤ cap) (cs : List WChunk)
+    (hcs : ∀ c ∈ cs, c.OK cap) (last : Bytes) (hl : LastOK cap last) (rest : Bytes)
+    (segs : List Bytes) (hsegs : segs.flatten = wireFrom cs last (13 :: 10 :: rest)) (fin : NetEnd)
+    (ks : List Nat) (hpos : ∀ k ∈ ks, 0 < k) (hlen : (dataOf cs).length < ks.length) :
+    let run := (H1Body.new .chunked (Bufio.new cap ⟨segs, fin⟩)).runReads ks
+    outBytes run.1 = dataOf cs ∧ lastErr run.1 = some .eof ∧ run.2.trailer = none ∧ run.2.br.rem = rest := by
+  have h := read_split_independent_chunked cap cs hcs last hl (13 :: 10 :: rest) rest none
+    (trailerOK_empty cap hcap rest) segs hsegs fin ks
+  obtain ⟨_, h2, h3⟩ := h
+  obtain ⟨e, he⟩ := h3 hpos hlen
+  obtain ⟨rfl, h4, h5, h6⟩ := h2 e he
+  exact ⟨h4, he, h5, h6⟩
+
+/-! Non-vacuity: `5\r\nhello\r\n3;x\r\nabc\r\n0\r\n\r\nN` cut into 7 segments, read with 4,4,4. -/
+example :
+    ((H1Body.new .chunked (Bufio.new 4096
+        ⟨[[53, 13], [10, 104, 101], [108, 108, 111, 13, 10, 51], [59, 120, 13, 10, 97], [98, 99, 13],
+          [10, 48, 13, 10, 13], [10, 78]], .eof⟩)).runReads [4, 4, 4, 4]).1 =
+      [([104, 101, 108, 108], none), ([111], none), ([97, 98, 99], none), ([], some .eof)] := by decide
+
+example : WChunk.OK 4096 ⟨[51, 59, 120, 13], [97, 98, 99]⟩ := by
+  refine ⟨by decide, by decide, by rfl, by decide, by decide⟩
+
+example : LastOK 4096 [48, 13] := by
+  refine ⟨by decide, by rfl, by decide, by decide⟩
 
 /-! Non-vacuity: a 5-byte body + the start of the next response, delivered in 3 segments that
 cut through the body, read with sizes 2,1,1,4,9. -/
